@@ -7,7 +7,9 @@
   and t = ybar - s R xbar;
 * a second, independent formulation (Kabsch / Umeyama: SVD of the cross-covariance with the
   diag(1,1,det) correction) used only by the self-test;
-* sum of squared residuals of an arbitrary (s, R, t), brute-force mean squared closest-point distance,
+* sum of squared residuals of an arbitrary (s, R, t) (plain, and in the centred form
+  sum |y_c - s R x_c|^2 + N |t - (ybar - s R xbar)|^2, which is the same number but is evaluated without the
+  cancellation that far-from-origin clouds cause), brute-force mean squared closest-point distance,
   pinhole projection  u = fx X/Z + cx, v = fy Y/Z + cy.
 
 Never calls pypose or torch.
@@ -37,6 +39,18 @@ def residuals(X, Y, s, R, t):
     return np.sqrt((D * D).sum(-1))
 
 
+def sse_centred(X, Y, s, R, t):
+    """sum_i | y_i - (s R x_i + t) |^2 evaluated as  sum_i |y_c,i - s R x_c,i|^2 + N |t - (ybar - s R xbar)|^2
+    (identical in exact arithmetic because the centred residuals sum to zero; the evaluation error is
+    eps64 * (centred radii) per point instead of eps64 * (distance from the origin))"""
+    X = np.asarray(X, dtype=np.float64)
+    Y = np.asarray(Y, dtype=np.float64)
+    xb, yb = X.mean(0), Y.mean(0)
+    D = (Y - yb) - s * ((X - xb) @ R.T)
+    dt = np.asarray(t, dtype=np.float64) - (yb - s * (R @ xb))
+    return float((D * D).sum() + len(X) * (dt * dt).sum())
+
+
 def horn_rotation(Xc, Yc):
     """rotation R maximising sum_i y_i . (R x_i) for centred sets (rows are points)"""
     S = Xc.T @ Yc                     # S[a, b] = sum_i x_a y_b
@@ -53,8 +67,10 @@ def horn_rotation(Xc, Yc):
 
 
 def optimum(X, Y, mode="rigid"):
-    """optimal transform of class `mode` in {"rigid", "sim"}: dict(s, R, t, sse, gap)
-    gap = (largest - second largest eigenvalue of N) / largest: 0 means a non-unique optimum."""
+    """optimal transform of class `mode` in {"rigid", "sim"}: dict(s, R, t, sse, sse_c, gap, l1, l2)
+    gap = (largest - second largest eigenvalue of N) / largest: 0 means a non-unique optimum; l1, l2 are the two
+    eigenvalues themselves (l1 - l2 = 2 (sigma_2 + d sigma_3) of the cross-covariance, d = sign of its determinant:
+    twice the smallest stiffness of the rotation); sse_c = the same optimum SSE evaluated on the centred sets."""
     X = np.asarray(X, dtype=np.float64)
     Y = np.asarray(Y, dtype=np.float64)
     xb, yb = X.mean(0), Y.mean(0)
@@ -66,8 +82,9 @@ def optimum(X, Y, mode="rigid"):
         s = float((Yc * (Xc @ R.T)).sum()) / den if den > 0 else 0.0
         s = max(s, 0.0)
     t = yb - s * (R @ xb)
-    return {"s": s, "R": R, "t": t, "sse": sse(X, Y, s, R, t),
-            "gap": (l1 - l2) / l1 if l1 > 0 else 0.0}
+    Dc = Yc - s * (Xc @ R.T)
+    return {"s": s, "R": R, "t": t, "sse": sse(X, Y, s, R, t), "sse_c": float((Dc * Dc).sum()),
+            "gap": (l1 - l2) / l1 if l1 > 0 else 0.0, "l1": l1, "l2": l2}
 
 
 def kabsch_umeyama(X, Y, mode="rigid"):
